@@ -350,6 +350,15 @@ def check_case(case, ctx):
     qids = [op[1] for op in ops if op[0] == "q"]
     has_unsol = any(op[0] == "r" and op[2] == "unsolicited" for op in ops)
 
+    # "unsolicited" upstream replies (question a.test, id 7777 + n) whose id happens to equal a client query's id while
+    # their question differs from that query's: mitmproxy pairs replies with flows by id alone (one known root cause)
+    id_only = set()
+    for op in ops:
+        if op[0] == "r" and op[2] == "unsolicited" and (7777 + op[1]) in qids:
+            u = R.decode(R.encode(reply_desc(query_desc(["q", 7777 + op[1], 0, 1, 1, 0]), op[1])))
+            if (u.id, u.qkey()) not in sentset:
+                id_only.add((u.id, u.qkey()))
+
     def idc(mid):
         """was this id used by more than one client query in the history?"""
         return "reused-id" if qids.count(mid) > 1 else "unsolicited-id" if mid not in qids else "fresh-id"
@@ -371,7 +380,8 @@ def check_case(case, ctx):
                 if (pk[0][0], pk[1]) != rk:
                     # while client data is processed: a stale response kept in a reused flow; while upstream data is
                     # processed: a reply paired (by id alone) with another query that used the same id
-                    ctx.fail("hook-response-mismatch:%s" % (idc(rk[0]) + ("-late-reply" if side == "s" else "")),
+                    ctx.fail("hook-response-mismatch:%s" % ("id-only-match" if side == "s" and (pk[0][0], pk[1]) in id_only else
+                                                            idc(rk[0]) + ("-late-reply" if side == "s" else "")),
                              "[%s] dns_response flow carries request %r but response id/question %r" % (label, rk, (pk[0][0], pk[1])))
         for m in o.to_client:
             try:
@@ -382,7 +392,7 @@ def check_case(case, ctx):
             if dm.qr != 1:
                 ctx.fail("reply-not-a-response", "[%s] %r" % (label, dm))
             if (dm.id, dm.qkey()) not in sentset:
-                ctx.fail("reply-unmatched:%s" % idc(dm.id), "[%s] reply id=%d question=%r answers no query the client sent (%r)" % (
+                ctx.fail("reply-unmatched:%s" % ("upstream-id-only-match" if (dm.id, dm.qkey()) in id_only else idc(dm.id)), "[%s] reply id=%d question=%r answers no query the client sent (%r)" % (
                     label, dm.id, dm.questions, sorted(sentset)[:6]))
             elif (dm.id, dm.qkey_exact()) not in sentexact:
                 ctx.fail("reply-question-case-changed:%s" % ("servfail" if dm.rcode == 2 and not any(dm.sections) else "answer"),
